@@ -19,7 +19,7 @@ from vlib.tr_wrapper import tr_wrapper
 from vlib.tr_output import tr_output
 from vlib.tr_fault import tr_fault, fault_values
 from vlib.syslevel import run_many
-from vlib.faultlib import run_fscript, call_line, effective_config, cfg_fields, obs_fields, PLAUSIBLE, NEVER_FAIL
+from vlib.faultlib import run_fscript, call_line, effective_config, cfg_fields, obs_fields, PLAUSIBLE, NEVER_FAIL, SHORT_COUNT, SHORT_FNS, ALL_ERRNOS_ALWAYS
 
 ELAPSED_BOUND_MS = 5000      # generous: a healthy call takes a few ms; a blocked one never returns (8 s alarm in the caller)
 ALL_DS = (b"io %{cwd} %{rpname} %{tty} %{tty_uid} %{tty_username} %{username} %{eusername} %{group} %{egroup} %{hostname} %{domain} %{login} "
@@ -75,6 +75,15 @@ def scenarios(tier, fv):
        world=("noperm", "plain", "plain", "1"), quick=True, faults=False)
     sc("sink-file-devfull", [b"output = file:/dev/full", b'message_format = "m %{cmdline}"'], world=("nospace", "plain", "plain", "1"), quick=True, faults=False)
     sc("sink-file-tmpfs-full", [b"output = file:@D@/full/out.log", b'message_format = "m %{cmdline}"'], setup=["#tmpfs\t@D@/full"], world=("nospace", "plain", "plain", "1"), quick=True, faults=False)
+    # a listening STREAM socket whose accept backlog is full and which nobody accepts from, at the socket path and behind /dev/log:
+    # the datagram connect() is refused (EPROTOTYPE); anything that falls back to a blocking stream connect() would sleep
+    sc("sink-socket-stream-listener-full", [b"output = socket:@D@/st.sock", b'message_format = "m %{cmdline}"'], setup=["stream\t@D@/st.sock"], world=("absent", "plain", "plain", "1"), quick=True, faults=False)
+    sc("sink-devlog-stream-listener-full", [b"output = devlog"], setup=["devlog-stream\t@D@/dls.sock"], world=("absent", "plain", "plain", "1"), quick=True, faults=False)
+    # the caller has no descriptor 0: the log file is opened on descriptor 0
+    sc("file-output-stdin-closed", [b"output = file:@D@/out.log", b'message_format = "c %{cmdline}"'], setup=["stdin\tclosed"], quick=True)
+    # an ancestor whose process name contains ") S <pid>": the walk of exclude_spawns_of must take the LAST ')' of /proc/<pid>/stat
+    sc("ancestor-name-with-paren", [b"output = file:@D@/out.log", b'message_format = "a %{cmdline} %{rpname}"', b'filter_chain = "exclude_spawns_of:cron,backupd"'],
+       setup=["parentname\ta) S %d"], quick=True, faults=False)
     sc("sink-socket-absent", [b"output = socket:@D@/nothing.sock", b'message_format = "m %{cmdline}"'], world=("absent", "plain", "plain", "1"), quick=True, faults=False)
     sc("sink-socket-full-unread", [b"output = socket:@D@/s.sock", b'message_format = "m %{cmdline}"'], setup=["dgram\t@D@/s.sock\t1"], world=("dgramfull", "plain", "plain", "1"), quick=True, faults=False)
     sc("sink-devlog-absent", [b"output = devlog"], setup=["devlog-absent\t@D@/nothing.sock"], world=("absent", "plain", "plain", "1"), quick=True, faults=False)
@@ -279,7 +288,9 @@ def check(run):
         plans = []
         for (k, fn) in pos:
             errs = PLAUSIBLE.get(fn, [E.EIO])
-            chosen = errs if thorough else [errs[(k + run.seed) % len(errs)]]
+            chosen = list(errs) if (thorough or fn in ALL_ERRNOS_ALWAYS) else [errs[(k + run.seed) % len(errs)]]
+            if fn in SHORT_FNS:
+                chosen.append(SHORT_COUNT)
             if not thorough:      # plus the errno a retry loop would spin on
                 chosen += [e for e in (E.EINTR, E.EAGAIN) if e in errs and e not in chosen][:1]
             for e in chosen:
